@@ -34,6 +34,12 @@ def obligations(tier):
     # destinations SMALLER than the bound; n >= 16 makes literal runs of 15+ bytes (length-extension bytes in the token stream)
     for n in ([4, 12, 16, 20] if q else [0, 1, 4, 8, 12, 16, 17, 20, 24, 31]):
         o.append(ob(1, n, mode=3))
+    # full-bound round trips (own decoder and the independent reference decoder) on concrete incompressible inputs at the lengths where the
+    # token / length-extension forms change (LZ4: 15 + 255 k literals; Snappy: 60, 61, 256, 257 byte literals) - the symbolic round trips
+    # stop at 24 bytes (added after seeded C01-lz4-last-run-length-255)
+    for codec, ns in ((1, [14, 15, 16, 269, 270, 271, 525, 526] if not q else [15, 270, 525]), (0, [59, 60, 61, 62, 255, 256, 257, 258] if not q else [60, 61, 257])):
+        for n in ns:
+            o.append(ob(codec, n, mode=1, concx=True, timeout=300)); o.append(ob(codec, n, mode=2, concx=True, timeout=300))
     # ... and with concrete incompressible content up to 300 bytes (literal runs with 1 and 2 length-extension bytes), every capacity below the bound
     for codec in (1, 0):
         for n in ([20, 200] if q else [15, 16, 20, 31, 200, 270, 300]):
